@@ -52,14 +52,40 @@ def quantity_features():
 
 ALL_Q = quantity_features()
 
+
+def all_features():
+    """Every feature named in [features] of the current Cargo.toml (optional dependencies used as features included)."""
+    import re
+    try:
+        cargo = open(os.path.join(REPO, "Cargo.toml")).read()
+    except OSError:
+        return []
+    m = re.search(r"^\[features\]\s*$(.*?)(?=^\[|\Z)", cargo, re.S | re.M)
+    feats = re.findall(r"^\s*([A-Za-z0-9_-]+)\s*=", m.group(1), re.M) if m else []
+    for f in ("fpdec", "serde"):
+        if f not in feats:
+            feats.append(f)
+    return feats
+
+
+def f64_all_features():
+    """`doc` plus every other feature except the amount back-end switch, serde and default: the "all" configuration
+    must contain every additive feature, also ones added after the pinned tree (their effect on existing bodies is
+    then visible to the additivity rule of C19)."""
+    fs = [f for f in all_features() if f not in ("fpdec", "serde", "default")]
+    if "doc" not in fs:
+        fs = ["doc"] + fs
+    return " ".join(fs)
+
+
 # name -> cargo arguments (all offline, nightly + wrapper)
 CONFIGS = {
-    "f64-all": ["--workspace", "--features", "doc", "--lib", "--tests"],
-    "dec-all": ["-p", "quantities", "--features", "doc fpdec serde", "--lib", "--tests"],
-    "f64-serde": ["-p", "quantities", "--features", "doc serde", "--lib"],
-    "dec-noserde": ["-p", "quantities", "--features", "doc fpdec", "--lib"],
-    "f64-nostd": ["-p", "quantities", "--no-default-features", "--features", "doc", "--lib"],
-    "dec-nostd": ["-p", "quantities", "--no-default-features", "--features", "doc fpdec", "--lib"],
+    "f64-all": ["--workspace", "--features", f64_all_features(), "--lib", "--tests"],
+    "dec-all": ["-p", "quantities", "--features", f64_all_features() + " fpdec serde", "--lib", "--tests"],
+    "f64-serde": ["-p", "quantities", "--features", f64_all_features() + " serde", "--lib"],
+    "dec-noserde": ["-p", "quantities", "--features", f64_all_features() + " fpdec", "--lib"],
+    "f64-nostd": ["-p", "quantities", "--no-default-features", "--features", " ".join(f for f in f64_all_features().split() if f != "std"), "--lib"],
+    "dec-nostd": ["-p", "quantities", "--no-default-features", "--features", " ".join(f for f in f64_all_features().split() if f != "std") + " fpdec", "--lib"],
     "none": ["-p", "quantities", "--no-default-features", "--lib"],
     "dec-none": ["-p", "quantities", "--no-default-features", "--features", "fpdec", "--lib"],
 }
@@ -117,7 +143,8 @@ def extract(config):
     current tree, running the driver if needed."""
     os.makedirs(os.path.join(CACHE, "facts"), exist_ok=True)
     rtag = hashlib.sha256(os.path.abspath(REPO).encode()).hexdigest()[:6]
-    key = "%s-%s-%s" % (config, rtag, cur_hash())
+    ahash = hashlib.sha256(" ".join(CONFIGS[config]).encode()).hexdigest()[:6]
+    key = "%s-%s-%s%s" % (config, rtag, cur_hash(), ahash)
     out = os.path.join(CACHE, "facts", key)
     lockp = os.path.join(CACHE, "facts", config + ".lock")
     with open(lockp, "w") as lf:
